@@ -185,7 +185,7 @@ def _inside_any(path, sel):
     return any(s == "" or path == s or path.startswith(s + "/") for s in sel)
 
 
-def user_contents(wt, pool):
+def user_contents(wt, pool, unwritten=None):
     """The statement's 'user-edited content' of the tree right now.
 
     Returns (U, excluded_hist): U = list of dicts {path, fid, cls, content, basis_path, basis_text}."""
@@ -255,10 +255,19 @@ def user_contents(wt, pool):
                         if bpath != path:
                             cls = "modified+renamed"
                 why = None
+                mm_unwritten = False
                 if content not in pool:
                     why = "not-written-by-user-phase"
                 elif fid is not None and mm.get(path) == _sha(content):
-                    why = "merge-modified-current-sha"
+                    if unwritten and (fid, content) in unwritten:
+                        # merge_modified lists it, but these very bytes were the user's own text before the merge-like
+                        # command(s) ran and no merger since had an incoming content change for this file: the merge
+                        # did not write this content, it stays user work
+                        mm_unwritten = True
+                        excl["(kept) merge-modified-lists-user-text-the-merge-did-not-write"] = excl.get(
+                            "(kept) merge-modified-lists-user-text-the-merge-did-not-write", 0) + 1
+                    else:
+                        why = "merge-modified-current-sha"
                 elif path in helpers or ((fid is None or cls == "added") and path.rpartition("/")[2] in helper_basenames):
                     # (a helper file the user has `add`ed is still the helper file resolve() cleans up once revert has
                     # moved its directory back: thorough seed 1 case 2821)
@@ -267,7 +276,7 @@ def user_contents(wt, pool):
                     excl[why] = excl.get(why, 0) + 1
                     continue
                 U.append({"path": path, "fid": fid, "cls": cls, "content": content, "basis_path": bpath, "basis_text": btext,
-                          "at_basis_path": at_basis_path})
+                          "at_basis_path": at_basis_path, "mm_unwritten": mm_unwritten})
     return U, excl
 
 
@@ -406,6 +415,8 @@ class Scn:
         self.ctx, self.rng, self.root, self.names = ctx, rng, root, names
         self.trees = dict(trees)  # name -> abs path inside this copy
         self.pool = set()  # byte strings written as uncommitted user edits in the tree under test
+        # (fid, bytes) that were user content before a command whose mergers brought no content change for that file
+        self.unwritten = set()
         self.log = []
 
     def wt(self, path):
@@ -495,7 +506,7 @@ class Scn:
 
         ctx = self.ctx
         wt = self.wt(tree_path)
-        U, excl = user_contents(wt, self.pool)
+        U, excl = user_contents(wt, self.pool, self.unwritten)
         for k, v in excl.items():
             ctx.hist("excluded:" + k, v)
         before = observe.snap_disk(tree_path)
@@ -542,6 +553,25 @@ class Scn:
                 ctx.hist("merger:" + m["type"])
         after = observe.snap_disk(tree_path)
         self.last_outcome = outcome
+        # which user contents did the mergers of this command certainly NOT rewrite?  (base text == other text == every LCA text)
+        for u in U:
+            if u["fid"] is None:
+                continue
+            key = (u["fid"], u["content"])
+            touched = False
+            for rec in mergers:
+                t = rec["texts"].get(u["fid"])
+                if t is None:
+                    touched = True
+                    break
+                base, other, lcas = t
+                if other != base or any(x != base for x in lcas):
+                    touched = True
+                    break
+            if mergers and not touched:
+                self.unwritten.add(key)
+            elif touched:
+                self.unwritten.discard(key)
         self.judge(family, optclass, U, before, after, mergers, tree_path, asked, merge_like, expect_disk_identical, outcome, argv, keyfn)
         return outcome
 
@@ -627,7 +657,10 @@ class Scn:
                             mech = "overwritten-by-moved-file"
                             break
                 if mech == "lost":
-                    key = "%s:lost:%s" % (family, (keyfn(u) if keyfn else None) or u["cls"].split("+")[0])
+                    if u.get("mm_unwritten"):
+                        key = "%s:lost:user-text-listed-in-merge-modified-but-not-written-by-the-merge" % family
+                    else:
+                        key = "%s:lost:%s" % (family, (keyfn(u) if keyfn else None) or u["cls"].split("+")[0])
                 else:
                     key = "%s:%s" % (family, mech)
                 ctx.fail(key, "%s %r: user-edited content of %s file %r is in no file of the tree afterwards (outcome %s)" % (
@@ -1014,6 +1047,94 @@ def fam_revert_resurrect(s):
           asked=(lambda u: nb and u["fid"] is not None), optclass="rev+resurrect-again" + ("+no-backup" if nb else ""), keyfn=keyfn)
 
 
+def fam_rename_then_revert(s):
+    """OTHER only renames / moves files (no text change); THIS has uncommitted edits of those files; a merge-like command
+    brings the rename in (the user's text is carried along), then revert runs with default options."""
+    from breezy.branch import Branch
+    from breezy.builtins import cmd_merge, cmd_pull, cmd_revert, cmd_switch, cmd_update
+
+    rng = s.rng
+    oname = rng.choice(sorted(s.trees))
+    op = s.trees[oname]
+    owt = s.wt(op)
+    old = owt.last_revision()
+    with owt.lock_read():
+        files = [p for p, ie in owt.iter_entries_by_dir() if ie.kind == "file" and os.path.isfile(owt.abspath(p)) and not os.path.islink(owt.abspath(p))]
+        dirs = [""] + [p for p, ie in owt.iter_entries_by_dir() if p and ie.kind == "directory" and os.path.isdir(owt.abspath(p))
+                       and not os.path.islink(owt.abspath(p))]
+    if not files:
+        s.ctx.discard("no-versioned-file")
+    chosen = rng.sample(files, min(len(files), rng.randint(1, 2)))
+    moved = []
+    for n, f in enumerate(chosen):
+        d = rng.choice(dirs) if rng.random() < 0.5 else f.rpartition("/")[0]
+        if d == f or d.startswith(f + "/"):
+            d = ""
+        dst = (d + "/" if d else "") + (f.rpartition("/")[2] if rng.random() < 0.3 and d != f.rpartition("/")[0] else "renamed%d-%s" % (n, f.rpartition("/")[2]))
+        if os.path.lexists(os.path.join(op, dst)):
+            continue
+        try:
+            owt.rename_one(f, dst)
+            moved.append((f, dst))
+        except Exception:
+            owt = s.wt(op)
+    if not moved:
+        s.ctx.discard("rename-refused")
+    if rng.random() < 0.4:
+        # the renaming commit also changes the text of some OTHER file
+        rest = [f for f in files if f not in chosen]
+        if rest:
+            ap = os.path.join(op, rng.choice(rest))
+            with open(ap, "rb") as fh:
+                t = fh.read()
+            with open(ap, "wb") as fh:
+                fh.write(_edit_far(rng, t, b"other"))
+    owt.commit("rename only", rev_id=b"rename-only-%d" % rng.randint(0, 10 ** 9))
+    del owt
+    mode = rng.choice(["merge", "pull", "update", "switch"])
+    tp = os.path.join(s.root, "follower")
+    if mode in ("merge", "pull"):
+        Branch.open(op).controldir.sprout(tp, revision_id=old)
+    elif mode == "update":
+        Branch.open(op).create_checkout(tp, revision_id=old, lightweight=rng.random() < 0.5)
+    else:
+        obp = os.path.join(s.root, "oldbranch")
+        Branch.open(op).controldir.sprout(obp, revision_id=old)
+        Branch.open(obp).create_checkout(tp, lightweight=True)
+    # the user's uncommitted edits of exactly those files (old names) + a little noise elsewhere
+    for f, _dst in moved:
+        ap = os.path.join(tp, f)
+        if rng.random() < 0.9 and os.path.isfile(ap) and not os.path.islink(ap):
+            with open(ap, "rb") as fh:
+                t = fh.read()
+            new = _edit_far(rng, t, b"user") if len(t) > 20 else t + b"user-%d\n" % rng.randint(0, 10 ** 9)
+            with open(ap, "wb") as fh:
+                fh.write(new)
+            s.pool.add(new)
+            s.log.append({"op": "edit-file-renamed-by-other", "path": f})
+    if rng.random() < 0.4:
+        s.user_edits(tp, nops=rng.randint(1, 2), hostile=False)
+    if mode == "merge":
+        s.run("merge", cmd_merge, ["--force", op], tp, merge_like=True, optclass="rename-only")
+    elif mode == "pull":
+        s.run("pull", cmd_pull, [op], tp, merge_like=True, optclass="rename-only")
+    elif mode == "update":
+        s.run("update", cmd_update, [], tp, merge_like=True, optclass="rename-only")
+    else:
+        s.run("switch", cmd_switch, [op], tp, merge_like=True, optclass="rename-only")
+    s.ctx.count("rename_only_merge")
+    argv, sel = [], None
+    r = rng.random()
+    if r < 0.15:
+        sel = [rng.choice(moved)[rng.randrange(2)]]
+        argv = list(sel)
+    nb = rng.random() < 0.1
+    if nb:
+        argv.insert(0, "--no-backup")
+    s.run("revert", cmd_revert, argv, tp, asked=(lambda u: nb and u["fid"] is not None and sel is None),
+          optclass="after-rename-only-merge" + ("+no-backup" if nb else ""))
+
+
 def fam_merge(s):
     rng = s.rng
     tname = rng.choice(sorted(s.trees))
@@ -1323,7 +1444,7 @@ def fam_uncommit(s):
 
 
 FAMILIES = [(fam_revert, 26), (fam_remove, 18), (fam_merge, 18), (fam_pull, 8), (fam_update, 9), (fam_switch, 9), (fam_uncommit, 8),
-            (fam_remove_twice, 3), (fam_revert_resurrect, 3), (fam_switch_store_shared, 3)]
+            (fam_remove_twice, 3), (fam_revert_resurrect, 3), (fam_switch_store_shared, 3), (fam_rename_then_revert, 4)]
 
 
 def case(ctx):
